@@ -490,6 +490,8 @@ class Gen(object):
             node = {'op': op}
             if keys and r.random() < 0.6:
                 node['key'] = r.choice(keys)
+                if r.random() < 0.08:
+                    node['ff'] = True          # the key mapper is a callable object with a false truth value
             return [node]
         if op == 'clip':
             lo = r.choice([None, 0, 1, 2])
@@ -563,6 +565,8 @@ class Gen(object):
                 if not keys:
                     return []
                 node['key'] = r.choice(keys)
+                if r.random() < 0.06 and node['key'] not in ('rr3', 'cnt3'):
+                    node['ff'] = True
                 ist = St(t, False, False)
             node['inner'] = self.pipeline(ist, fl, nest - 1, r.choice([1, 1, 2, 2, 3]))
             return [node]
@@ -673,8 +677,11 @@ def _faulty(ctx, site, fn, item_arg):
     return wrapped
 
 
-def key_fn(name):
-    return F.KEYS[name][0] if name is not None else None
+def key_fn(name, node=None):
+    f = F.KEYS[name][0] if name is not None else None
+    if f is not None and node is not None and node.get('ff'):
+        return F.FalsyFn(f)          # the same function, as a callable object with a false truth value
+    return f
 
 
 
@@ -754,7 +761,7 @@ def build_node(node, ctx, mode, path, i):
     if op == 'to_array':
         return rs.data.to_array(node['tc'])
     if op == 'distinct_until_changed':
-        return rs.ops.distinct_until_changed(key_fn(node.get('key')))
+        return rs.ops.distinct_until_changed(key_fn(node.get('key'), node))
     if op == 'clip':
         return rs.data.clip(lower_bound=node.get('lo'), higher_bound=node.get('hi'))
     if op == 'fill_none':
@@ -796,7 +803,13 @@ def build_node(node, ctx, mode, path, i):
         def dl_done():
             ctx.g += 1
             dead.append((ctx.g, ctx.seq, 'c', None))
-        errors.subscribe(on_next=dl_next, on_completed=dl_done, on_error=lambda e: dead.append((ctx.g, ctx.seq, 'e', canon_exc(e))))
+        def listen():
+            errors.subscribe(on_next=dl_next, on_completed=dl_done, on_error=lambda e: dead.append((ctx.g, ctx.seq, 'e', canon_exc(e))))
+        if ctx.extra.get('late_dead_letter'):
+            # the dead-letter observable gets its subscriber after the data stream was subscribed, before the first item
+            ctx.extra.setdefault('after_subscribe', []).append(listen)
+        else:
+            listen()
         return route()
     if op == 'drop_planned':
         plan = set(tuple(x) for x in ctx.extra.get('drop', {}).get(node['site'], ()))
@@ -813,7 +826,7 @@ def build_node(node, ctx, mode, path, i):
     if mode != 'mux':
         raise Invalid('%s needs a multiplexed source' % op)
     if op == 'distinct':
-        return rs.ops.distinct(key_fn(node.get('key')))
+        return rs.ops.distinct(key_fn(node.get('key'), node))
     if op == 'lag':
         return rs.data.lag(_n(node, 'n'))
     if op == 'pad_start':
@@ -831,7 +844,7 @@ def build_node(node, ctx, mode, path, i):
                 _calls.append(len(_calls) % 3)
                 return _calls[-1]
             return rs.ops.group_by(round_robin, inner)
-        return rs.ops.group_by(key_fn(node['key']), inner)
+        return rs.ops.group_by(key_fn(node['key'], node), inner)
     if op == 'roll':
         return rs.data.roll(_n(node, 'window'), _n(node, 'stride'), inner)
     if op == 'split':
@@ -842,7 +855,7 @@ def build_node(node, ctx, mode, path, i):
                 _calls.append(len(_calls) // 3)
                 return _calls[-1]
             return rs.data.split(every_third, inner)
-        return rs.data.split(key_fn(node['key']), inner)
+        return rs.data.split(key_fn(node['key'], node), inner)
     if op == 'time_split':
         return rs.data.time_split(
             time_mapper=time_mapper(node),
